@@ -15,7 +15,7 @@ PROPS = {
     "C01": {
         "harness": [{"name": "c01"}],
         "n_quick": 240, "n_thorough": 6000,
-        "known_for": ["C01", "C04", "C15", "C14", "C03", "C05"],
+        "known_for": ["C01", "C04", "C06", "C15", "C14", "C03", "C05"],
         "scope_guards": ["C01_transparency composition theorem not yet proved for any fragment of the language; proved for every input: plan_sub (no field invented); refuted: 5 witnesses"],
         "assumptions": ["downstream services are spec-conformant executors over their own schema (simulators, checked against Gql/RefExec.v per request)",
                         "gqlparser's validation of client queries is taken as given (only validated operations are emitted)"],
@@ -23,50 +23,50 @@ PROPS = {
     "C04": {
         "harness": [{"name": "c04"}],
         "n_quick": 240, "n_thorough": 6000,
-        "known_for": ["C01", "C04", "C15", "C14", "C03", "C05"],
+        "known_for": ["C01", "C04", "C06", "C15", "C14", "C03", "C05"],
         "assumptions": ["validity of a received document is judged by gqlparser's validator at the simulator (direct oracle) and by valid_doc in the model"],
     },
     "C02": {
         "harness": [{"name": "c02"}],
-        "n_quick": 240, "n_thorough": 6000, "known_for": ["C01", "C04", "C15", "C14", "C03", "C05"],
+        "n_quick": 240, "n_thorough": 6000, "known_for": ["C01", "C04", "C06", "C15", "C14", "C03", "C05"],
         "assumptions": ["downstream services are spec-conformant executors over their own schema (simulators, checked against Gql/RefExec.v per request)",
                         "gqlparser's validation of client queries is taken as given (only validated operations are emitted)"],
         "partial": "panic recovery at the HTTP layer is gqlgen's; real timeouts are simulated by a transport returning a net.Error with Timeout()=true",
     },
     "C03": {
         "harness": [{"name": "c03"}],
-        "n_quick": 240, "n_thorough": 6000, "known_for": ["C01", "C04", "C15", "C14", "C03", "C05"],
+        "n_quick": 240, "n_thorough": 6000, "known_for": ["C01", "C04", "C06", "C15", "C14", "C03", "C05"],
         "assumptions": ["downstream services are spec-conformant executors over their own schema (simulators, checked against Gql/RefExec.v per request)",
                         "gqlparser's validation of client queries is taken as given (only validated operations are emitted)"],
     },
     "C05": {
         "harness": [{"name": "c05"}],
-        "n_quick": 240, "n_thorough": 6000, "known_for": ["C01", "C04", "C15", "C14", "C03", "C05"],
+        "n_quick": 240, "n_thorough": 6000, "known_for": ["C01", "C04", "C06", "C15", "C14", "C03", "C05"],
         "assumptions": ["downstream services are spec-conformant executors over their own schema (simulators, checked against Gql/RefExec.v per request)",
                         "gqlparser's validation of client queries is taken as given (only validated operations are emitted)"],
     },
     "C15": {
         "harness": [{"name": "c15"}],
-        "n_quick": 240, "n_thorough": 6000, "known_for": ["C01", "C04", "C15", "C14", "C03", "C05"],
+        "n_quick": 240, "n_thorough": 6000, "known_for": ["C01", "C04", "C06", "C15", "C14", "C03", "C05"],
         "assumptions": ["downstream services are spec-conformant executors over their own schema (simulators, checked against Gql/RefExec.v per request)",
                         "gqlparser's validation of client queries is taken as given (only validated operations are emitted)"],
     },
     "C16": {
         "harness": [{"name": "c16"}],
-        "n_quick": 240, "n_thorough": 6000, "known_for": ["C01", "C04", "C15", "C14", "C03", "C05"],
+        "n_quick": 240, "n_thorough": 6000, "known_for": ["C01", "C04", "C06", "C15", "C14", "C03", "C05"],
         "assumptions": ["downstream services are spec-conformant executors over their own schema (simulators, checked against Gql/RefExec.v per request)",
                         "gqlparser's validation of client queries is taken as given (only validated operations are emitted)"] + ["the simulators count a mutation's side effects when (and only when) the request is executed"],
     },
     "C06": {
         "harness": [{"name": "c06"}],
-        "n_quick": 70, "n_thorough": 1500, "known_for": ["C01", "C04", "C15", "C14", "C03", "C05"],
+        "n_quick": 70, "n_thorough": 1500, "known_for": ["C01", "C04", "C06", "C15", "C14", "C03", "C05"],
         "assumptions": ["downstream services are spec-conformant executors over their own schema (simulators, checked against Gql/RefExec.v per request)",
                         "gqlparser's validation of client queries is taken as given (only validated operations are emitted)"] + ["the Go scheduler between 'response read' and 'result sent' is not controlled by the harness; the transition system covers those interleavings"],
-        "partial": "only response-completion order is forced (gating transport with a settle window); the merge-commutation lemma (any causally ordered list merges to the same tree) is not yet a theorem",
+        "partial": "only response-completion order is forced by the harness (gating transport with a settle window); the merge-order theorem covers plans with one root step (mergeMaps for several root results is not covered) and takes the independence of causally unrelated results as a hypothesis about the planner, which the recorded finding KF-key-clash-across-types refutes for one query shape",
     },
     "C13": {
         "harness": [{"name": "c13"}],
-        "n_quick": 150, "n_thorough": 3000, "known_for": ["C01", "C04", "C15", "C14", "C03", "C05"],
+        "n_quick": 150, "n_thorough": 3000, "known_for": ["C01", "C04", "C06", "C15", "C14", "C03", "C05"],
         "assumptions": ["downstream services are spec-conformant executors over their own schema (simulators, checked against Gql/RefExec.v per request)",
                         "gqlparser's validation of client queries is taken as given (only validated operations are emitted)"] + ["goroutines are identified by a github.com/movio/bramble frame on their stack; net/http connection and body lifetimes are not observed"],
         "partial": "client cancellation is exercised by the harness only (the transition system has no cancel label); termination and deadlock freedom are theorems about the transition system, whose tie to execution.go is the acceptance of observed schedules and the goroutine census",
@@ -92,7 +92,7 @@ PROPS = {
     },
     "C14": {
         "harness": [{"name": "c14"}],
-        "n_quick": 240, "n_thorough": 6000, "known_for": ["C01", "C04", "C15", "C14", "C03", "C05"],
+        "n_quick": 240, "n_thorough": 6000, "known_for": ["C01", "C04", "C06", "C15", "C14", "C03", "C05"],
         "assumptions": ["downstream services are spec-conformant executors over their own schema (simulators, checked against Gql/RefExec.v per request)",
                         "gqlparser's validation of client queries is taken as given (only validated operations are emitted)"] + ["strconv.IsPrint is an oracle: bytes >= 0x80 are assumed to belong to printable runes (the harness only uses such runes)"],
     },
@@ -123,7 +123,7 @@ PROPS = {
     },
     "C12": {
         "harness": [{"name": "c12"}],
-        "n_quick": 120, "n_thorough": 3000, "known_for": ["C01", "C04", "C15", "C14", "C03", "C05"],
+        "n_quick": 120, "n_thorough": 3000, "known_for": ["C01", "C04", "C06", "C15", "C14", "C03", "C05"],
         "race": True,
         "assumptions": ["downstream services are spec-conformant executors over their own schema (simulators, checked against Gql/RefExec.v per request)",
                         "'alone' means: served by a fresh gateway instance over the same schema and data",
@@ -161,7 +161,7 @@ META = {
         "technique": "Coq model + stage theorem (structural induction) + refutation witnesses; differential correspondence model vs real gateway; RefExec oracle",
     },
     "C04": {
-        "text": "Theorems C04_only_client_fields (every field of every step at any depth is a client field or helper-aliased plumbing; all schemas, tables, selections) and C04_refuted_shared_remote_abstract (validity against the receiving schema is false on a published federation; known finding). Tie: every downstream document observed from the real gateway is validated with gqlparser against the receiving service's own schema, operation type and keyword are checked, ids are checked duplicate-free, and the multiset of requests must equal the model's. C04_ids_never_repeated: every request of the whole gateway model carries duplicate-free ids (batches included), for every world and operation.",
+        "text": "Theorems C04_only_client_fields (every field of every step at any depth is a client field or helper-aliased plumbing; all schemas, tables, selections) and two refutations of validity against the receiving schema on published federations (C04_refuted_shared_remote_abstract, C04_refuted_foreign_abstract_condition; known findings). Tie: every downstream document observed from the real gateway is validated with gqlparser against the receiving service's own schema, operation type and keyword are checked, ids are checked duplicate-free and to have been named, for that type, by an earlier reply, every requested field name must be one the client selected and @skip/@include left in, and the multiset of requests must equal the model's. C04_ids_never_repeated: every request of the whole gateway model carries duplicate-free ids (batches included), for every world and operation.",
         "note": "valid_doc is my subset of GraphQL validation (field existence, leaf/composite shape, fragment conditions); the simulator's verdict comes from gqlparser itself. Ownership (plan_owned) not yet a theorem.",
         "technique": "Coq stage theorem + refutation witness; correspondence of request multisets; gqlparser validation at the simulators",
     },
@@ -171,7 +171,7 @@ META = {
         "technique": "Coq model + invariant proofs on the execution skeleton; differential correspondence under fault injection; spec-derived response validator evaluated in Coq on observed responses",
     },
     "C03": {
-        "text": "Theorems C03_filter_sound (every field surviving filterFields lies on an allowed path; all trees, all selections), C03_walk_is_spec (the walk equals the documented allows relation) and plan_sub (nothing but surviving fields is requested downstream). Tie + oracles: random permission trees (allow-all, list, nested, documented empty-leaf forms, abstract types) x random queries through the real gateway; the model must reproduce requests/response/errors; the observed response must be valid for the independently filtered query, every (type, field) requested downstream must occur in the filtered query (or be id/__typename plumbing), the number of 'access disallowed' errors must equal the number of removed fields, and the data must equal the reference executor on the filtered query. C03_filter_is_the_specification: the model of filterFields returns exactly the selection and exactly the reported paths of Model/PermSpec.v, a specification written from the documentation with path membership alone (which the oracle of this check also uses).",
+        "text": "Theorems C03_filter_sound (every field surviving filterFields lies on an allowed path; all trees, all selections), C03_walk_is_spec (the walk equals the documented allows relation) and plan_sub (nothing but surviving fields is requested downstream). Tie + oracles: the permission-filtered schema the code built for each request is compared with the model of FilterSchema (Model/View.v) on the merged schema (corr.view); directed two-path trees (one type on a narrow direct path and on a wide abstract path); random permission trees (allow-all, list, nested, documented empty-leaf forms, abstract types) x random queries through the real gateway; the model must reproduce requests/response/errors; the observed response must be valid for the independently filtered query, every (type, field) requested downstream must occur in the filtered query (or be id/__typename plumbing), the number of 'access disallowed' errors must equal the number of removed fields, and the data must equal the reference executor on the filtered query. C03_filter_is_the_specification: the model of filterFields returns exactly the selection and exactly the reported paths of Model/PermSpec.v, a specification written from the documentation with path membership alone (which the oracle of this check also uses).",
         "note": "FilterSchema is taken from the real code (the filtered schema is an input of the model); its agreement with filterFields is C18/C17 territory. Completeness of the filter (allowed implies kept) not yet a theorem.",
         "technique": "Coq stage theorems (structural induction over selection and permission trees) + differential correspondence + independent spec filter as oracle",
     },
@@ -191,9 +191,9 @@ META = {
         "technique": "Coq routing theorem + side-effect counting simulators + differential correspondence",
     },
     "C06": {
-        "text": "Theorem C06_results_causally_ordered: in the transition system of Execute (main, collector, one goroutine per step, unbuffered channel, error group, atomic counter) EVERY interleaving yields a results list in which a step's result comes after its spawner's. Tie + direct oracle: under a gating transport each generated request is run under up to 6 (thorough: 24) different causal release orders of its downstream responses, with faults and with a request limit of 1; data bytes and error multisets must be identical across orders; one order per case is checked against the sequential gateway model (which merges in depth-first order — a third order).",
-        "note": "The second half of the argument (any causally ordered list merges to the same tree: commutation of mergeExecutionResultsRec on independent results) is observed, not yet proved.",
-        "technique": "Coq invariant over all interleavings of a transition system + schedule enumeration under a gating transport + model correspondence",
+        "text": "Theorems: C06_results_causally_ordered (in the transition system of Execute — main, collector, one goroutine per step, unbuffered channel, error group, atomic counter — EVERY interleaving yields a results list in which a step's result comes after its spawner's); C06_merge_order_irrelevant_partial (the model of mergeExecutionResults: root result first, then the lookup results in ANY two orders whose inverted pairs are independent: both merges succeed together and give the same Go value; by commutation of independent results for every destination tree, congruence of the merge w.r.t. equality of Go values, and an induction showing any two such orders are related by adjacent swaps); C06_response_independent_of_arrival_order_partial (then the null-propagation errors and the response are identical, for every schema and selection: the null pass and the writer read maps by lookup, json.Marshal writes keys in byte order) with C06_shaped_is_the_gateways_response; C06_key_clash_across_types_refuted (the hypothesis fails on a real plan: known finding, reproduced on the real gateway). Tie + direct oracle: under a gating transport each generated request is run under up to 6 (thorough: 24) different causal release orders of its downstream responses, with faults and with a request limit; data bytes and error multisets (verbatim) must be identical across orders; one order per case is checked against the sequential gateway model (which merges in depth-first order — a further order).",
+        "note": "The independence of causally unrelated results is a property of the planner that is assumed by the theorem and observed by the harness (byte-identical answers under forced orders); plans with several root steps are outside the theorem.",
+        "technique": "Coq: invariant over all interleavings of a transition system; commutation/congruence proofs over the merge, null-propagation and writer models for all trees and orders; + schedule enumeration under a gating transport + model correspondence",
     },
     "C13": {
         "text": "Theorems C13_terminates (every schedule is at most mu(init) steps long for an explicit measure every step decreases, and every reachable state in which main has not returned has an enabled step: every maximal schedule is finite and ends with main returned), C13_released (every terminal state of every schedule has main returned, no step goroutine, collector exited — for all plans, outcome oracles, limits), C13_limit (lookup rounds sent <= max in every reachable state) and C13_released_refuted_before_fix (the error path at d802d19 leaked the collector; repaired by fix d3a4cc6). Tie + direct oracles: random queries under limits 0..6 and 50, faults, and client cancellation at a random gate: the request terminates, <= 1 root request per service, lookups <= limit, a limit-exceeded response has no data, and no goroutine with a bramble frame survives; the sequential model reproduces the response including the limit outcome.",
